@@ -15,7 +15,7 @@ from . import core
 class SuiteCfg:
     def __init__(self, name, parts_thorough=16, timeout=3000, nontrivial=None, signature=None,
                  has_spec=False, describe="", kind="diff", observable=None, classify=None, env=None,
-                 stateless=False):
+                 stateless=False, tags="", suite_arg=None):
         self.name = name
         self.parts_thorough = parts_thorough
         self.timeout = timeout
@@ -36,6 +36,12 @@ class SuiteCfg:
         self.env = env or {}
         # stateless: every line is its own case (no "new" separators)
         self.stateless = stateless
+        # tags: extra Go build tags for this suite's harness binary (e.g. "purego,appengine" to
+        # select the portable Keccak); a separate binary .build/hv-Cxx+<tags> is built for it
+        self.tags = tags
+        # suite_arg: suite name passed to the hv binary and to hopmodel (default: name); lets two
+        # SuiteCfgs (different tags) share one generator/driver
+        self.suite_arg = suite_arg or name
 
 
 class PropCfg:
@@ -59,11 +65,11 @@ def run_case(prop, suite, ops, spec=False):
     """run one case alone on implementation and model; returns (impl_outs, model_outs)"""
     env = core.goenv()
     env.update(suite.env)
-    _, io, ie = core.run_lines([core.hv_path(prop), suite.name, "run"], ops, env=env)
+    _, io, ie = core.run_lines([core.hv_path(prop, suite.tags), suite.suite_arg, "run"], ops, env=env)
     if suite.kind == "monitor":
-        _, mo, _ = core.run_lines([core.HOPMODEL, suite.name], io)
+        _, mo, _ = core.run_lines([core.HOPMODEL, suite.suite_arg], io)
         return io, mo
-    _, mo, _ = core.run_lines([core.HOPMODEL, suite.name] + (["--spec"] if spec else []), ops)
+    _, mo, _ = core.run_lines([core.HOPMODEL, suite.suite_arg] + (["--spec"] if spec else []), ops)
     return io, mo
 
 
@@ -188,7 +194,10 @@ def run_check(cfg, tier, seed):
         if not gok:
             notes.append("translator failed: " + gout[-1500:])
         pr = core.prove(pid, cfg.module, tier)
-        hok, hout = core.build_hv(pid)
+        hok, hout = True, ""
+        for tg in sorted({s.tags for s in cfg.suites}):
+            ok1, out1 = core.build_hv(pid, tg)
+            hok, hout = hok and ok1, hout + out1
 
     if not os.path.exists(core.HOPMODEL):
         print("internal error: Lean driver did not build\n" + pr.get("log", ""))
@@ -204,7 +213,8 @@ def run_check(cfg, tier, seed):
         if hok and os.path.exists(core.HOPMODEL):
             for suite in cfg.suites:
                 parts = suite.parts_thorough if tier == "thorough" else 1
-                ties = [core.Tie(pid, suite.name, tier, seed, work, p, parts) for p in range(parts)]
+                ties = [core.Tie(pid, suite.name, tier, seed, work, p, parts, suite.tags, suite.suite_arg)
+                        for p in range(parts)]
                 stats = {"ops": 0, "cases": 0, "distinct": set(), "hist": collections.Counter(), "samples": []}
 
                 def one(t, suite=suite):
@@ -356,10 +366,11 @@ def replay(cfg, path):
     with core.Lock():
         core.regenerate()
         core.lake_build(["hopmodel"])
-        ok, out = core.build_hv(cfg.id)
-        if not ok:
-            print(out)
-            return 2
+        for tg in sorted({s.tags for s in cfg.suites}):
+            ok, out = core.build_hv(cfg.id, tg)
+            if not ok:
+                print(out)
+                return 2
     suite = next(s for s in cfg.suites if s.name == payload["suite"])
     io, mo = run_case(cfg.id, suite, payload["ops"])
     k = differs(suite, payload["ops"], io, mo)
@@ -388,7 +399,10 @@ def setup(all_props):
             print("setup: lake build failed")
             return 1
         for pid in sorted(all_props):
-            ok, out = core.build_hv(pid)
+            ok, out = True, ""
+            for tg in sorted({s.tags for s in all_props[pid].suites}):
+                ok1, out1 = core.build_hv(pid, tg)
+                ok, out = ok and ok1, out + out1
             if not ok:
                 print("setup: harness for %s does not build (its check will report it)\n%s" % (pid, out[-1500:]))
     print("setup done")
